@@ -893,6 +893,48 @@ def c13_corpus(seed, tier, cases):
         S.case("tt twice: a healthy clock, then %s" % bad,
                [{"op": "timer", "t": 1, "readings": [u64(x) for x in rd], "cont": [u64(0)] if bad == "zeros" else [u64(100)]}, {"op": "jit_new", "g": 1, "t": 1},
                 {"op": "test_timer", "g": 1}, {"op": "clone", "g": 1, "to": 2}, {"op": "test_timer", "g": 1}, {"op": "test_timer", "g": 2}], weight=1400)
+    # exactly at the stuck limit (270 of the 300 measured probes), where one probe more or less changes the verdict, and the
+    # first measured probe has the very delta that the generator's LAST measurement before this call had: test_timer run
+    # three times over the same deltas, and after a collection whose last delta is that one (what an earlier call left
+    # behind is none of this call's business)
+    def deltas_270(first):
+        d = [300 + 13 * k + (k * k) % 17 for k in range(100)]
+        d += [first + 7 * k * k for k in range(29)]
+        return d + [first] * 271
+
+    def tt_from_deltas(start, deltas):
+        v, cur = [start], start
+        for d in deltas:
+            time = cur + 40
+            v += [time, time + 1, time + 2, time + d]
+            cur = time + d
+        return v
+    for first in (1001, 4097, 77):
+        rd = tt_from_deltas(rng.getrandbits(40) + 5000, deltas_270(first))
+        rd += tt_from_deltas(rd[-1] + 1000, deltas_270(first)) + tt_from_deltas(rd[-1] + 900000, deltas_270(first))
+        S.case("tt at the stuck limit (270), three times over the same deltas (first=%d)" % first,
+               [{"op": "timer", "t": 1, "readings": [u64(x) for x in rd], "cont": CONT}, {"op": "jit_new", "g": 1, "t": 1},
+                {"op": "test_timer", "g": 1}, {"op": "test_timer", "g": 1}, {"op": "test_timer", "g": 1, "then_set": True}, {"op": "next_u32", "g": 1}], weight=1400)
+    for r in (1, 8):
+        t = rng.getrandbits(40) + (1 << 20)
+        pre = []
+        for k in range(1 + 3 + 3 * r):
+            t += 211 + 37 * k + (k * k * k) % 101
+            pre.append(t)
+        last = pre[-2] - pre[-5]            # the delta of the collection's last measurement (time stamps are every third reading)
+        first = last + 1 if last % 100 == 0 else last
+        rd = pre + tt_from_deltas(pre[-1] + 1000, deltas_270(first))
+        S.case("tt at the stuck limit (270) after a collection whose last delta is the first measured one (rounds %d)" % r,
+               [{"op": "timer", "t": 1, "readings": [u64(x) for x in rd], "cont": CONT}, {"op": "jit_new", "g": 1, "t": 1}, {"op": "set_rounds", "g": 1, "r": r},
+                {"op": "next_u64", "g": 1}, {"op": "test_timer", "g": 1, "then_set": True}, {"op": "next_u32", "g": 1}], weight=900)
+    # clocks that tick in units other than 1 (and not in multiples of 100): every delta a multiple of the unit
+    for unit in (2, 101, 128, 143, 1024, 4096, 3 << 20):
+        t = (rng.getrandbits(30) + 1000) * unit
+        rd = [t]
+        for k in range(1600):
+            t += unit * rng.randrange(1, 1 << rng.choice([4, 8, 11]))
+            rd.append(t)
+        add("tt clock ticking in units of %d" % unit, rd)
     # seeded random timers
     for i in range(6 if tier == "quick" else 500):
         style = rng.choice(["jit", "coarse", "const", "lin", "wild"])
@@ -1369,6 +1411,15 @@ def mixed_value_corpus(kind, seed, tier):
             ops += [opj(e, g) for e in random_walk(rng, 5, WORDBYTES[kind], bb)]
         ops += [opj(("fill_bytes", 0), 1), opj(("next_u32", 0), 1), opj(("fill_bytes", (bb or 8) * 2 + 1), 2), opj(("next_u32", 0), 2), opj(("next_u64", 0), 3)]
         S.case("%s mixed history with clone / clone_from #%d" % (kind, r), ops, weight=300 + (bb or 0))
+    if bb:
+        # the other width of output call at the last positions of a block (one, two, three words left), and after it
+        wpb = bb // 4 if kind != "Isaac64Rng" else bb // 8
+        for left in (1, 2, 3):
+            sd = [rng.getrandbits(8) for _ in range(SEEDLEN[kind])]
+            nat, other = ("next_u32", "next_u64") if kind != "Isaac64Rng" else ("next_u64", "next_u32")
+            ops = [{"op": "from_seed", "g": 1, "kind": kind, "seed": sd}, {"op": nat, "g": 1, "n": wpb - left},
+                   {"op": other, "g": 1}, {"op": nat, "g": 1, "n": 3}, {"op": other, "g": 1}, {"op": "fill_bytes", "g": 1, "n": 9}, {"op": nat, "g": 1, "n": wpb - left - 2}, {"op": other, "g": 1}, {"op": other, "g": 1}, {"op": nat, "g": 1, "n": 2}]
+            S.case("%s: the other output call with %d word(s) of the block left" % (kind, left), ops, weight=600 + bb)
     return S
 
 
@@ -1412,6 +1463,14 @@ def very_far_corpus(seed, digest=False):
            {"op": "skip", "g": 1, "kib": (1 << 24) + 16, "via": "fill", "digest": digest},
            {"op": "next_u32", "g": 1}, {"op": "next_u64", "g": 1}, {"op": "fill_bytes", "g": 1, "n": 70, "off": 3}, {"op": "next_u32", "g": 1}]
     S.case("Hc128Rng past word 2^32", ops, weight=100)
+    # ISAAC 2^18 + 40 blocks in (quantities that grow with the number of blocks - the counter c, and b, which accumulates
+    # it - have long left the range a short run shows)
+    for kind, kib in (("IsaacRng", (1 << 18) + 40), ("Isaac64Rng", (1 << 18) + 80)):
+        for sd in ([0] * 32, [rng.getrandbits(8) for _ in range(32)]):
+            ops = [{"op": "from_seed", "g": 1, "kind": kind, "seed": sd}, {"op": "next_u32", "g": 1},
+                   {"op": "skip", "g": 1, "kib": kib, "via": "fill", "digest": digest},
+                   {"op": "next_u32", "g": 1}, {"op": "next_u64", "g": 1}, {"op": "fill_bytes", "g": 1, "n": 70, "off": 3}, {"op": "next_u32", "g": 1}]
+            S.case("%s 2^18 blocks in (%s seed)" % (kind, "zero" if not any(sd) else "random"), ops, weight=100)
     return S
 
 
